@@ -41,6 +41,16 @@
 //	     values below the non-nil branch of their own nil test); the region is still the blocks
 //	     dominated by the nil branch of the test.
 //
+// CAPTURED GLOBALS (closures.go states the rule in full): a local variable of a function that runs
+// during package initialisation (the package initialisers and what they call statically, e.g.
+// initTypes) that is captured by a function literal whose value is kept (stored, returned, sent,
+// started with go, handed to a function of the packages - not merely called on the spot or handed
+// to a foreign function) is a package-level variable named `<function>$<variable>`: loads and
+// stores through it, in the function or in the literal's body, are reads and writes of that
+// location (GlobalsInitOnly: a store in a literal that can run after initialisation breaks the
+// obligation), and a pointer, map, slice or channel loaded from it has that origin
+// (NoGlobalEscapes, element stores).
+//
 // The reviewed file allow.json (embedded) names the reader API, the declared guards and the
 // allow-list: write sites on reader paths that lie outside the claim of the property, each with
 // the run-time condition (guard) that puts it outside.  The tool only *tags* those sites; the
@@ -272,6 +282,12 @@ func (a *analyzer) byType(v ssa.Value, out map[string]bool) {
 
 // contents: origins of the value stored in the memory cell(s) p points to.
 func (a *analyzer) contents(p ssa.Value, out map[string]bool, seen map[ssa.Value]bool) {
+	if n := a.capturedGlobal(p); n != "" {
+		if pt, ok := p.Type().Underlying().(*types.Pointer); ok && capturedRef(pt.Elem()) {
+			out[n] = true // (closures.go) a pointer, map, slice or channel held by a captured global
+			return
+		}
+	}
 	if al := a.allocOf(p, 0); al != nil {
 		st := a.storesTo[al]
 		if len(st) == 0 {
@@ -450,6 +466,9 @@ func (a *analyzer) ptrLocs(p ssa.Value, seen map[ssa.Value]bool) []string {
 		return nil
 	}
 	seen[p] = true
+	if n := a.capturedGlobal(p); n != "" {
+		return []string{n} // a variable captured by a function literal made during initialisation (closures.go)
+	}
 	if a.allocOf(p, 0) != nil {
 		return nil
 	}
@@ -1149,6 +1168,7 @@ func main() {
 			}
 		}
 	}
+	a.computeCapturedGlobals() // closures.go
 	a.computeBindings()
 	a.computeSentinels()
 	// functions that return a freshly allocated object (first result), to a fixed point
